@@ -226,7 +226,8 @@ func (o *FilterOptimizer) optimizeGtGteExpr(e *BinaryOpExpr) *ScanType {
 
 	switch left := e.Left.(type) {
 	case *StringExpr:
-		key = []byte(left.Data)
+		// 'literal' > key is key < 'literal': the literal is the end of the range
+		return o.optimizeLiteralFirstExpr(e, left, false)
 	case *FieldExpr:
 		field = left.Field
 	}
@@ -252,6 +253,29 @@ func (o *FilterOptimizer) optimizeGtGteExpr(e *BinaryOpExpr) *ScanType {
 	return &ScanType{FULL, nil}
 }
 
+// optimizeLiteralFirstExpr handles a comparison written with the literal on the
+// left ('s' > key, 's' <= key, ...): the key is then bounded from the other side.
+// keyIsGreater tells whether the key is the greater operand ('s' < key, 's' <= key).
+func (o *FilterOptimizer) optimizeLiteralFirstExpr(e *BinaryOpExpr, left *StringExpr, keyIsGreater bool) *ScanType {
+	right, ok := e.Right.(*FieldExpr)
+	if !ok || right.Field != KeyKW {
+		return &ScanType{FULL, nil}
+	}
+	key := []byte(left.Data)
+	if keyIsGreater {
+		if len(key) == 0 {
+			// '' < key or '' <= key means full scan
+			return &ScanType{FULL, nil}
+		}
+		return &ScanType{RANGE, [][]byte{key, nil}}
+	}
+	if len(key) == 0 {
+		// '' > key matches nothing, '' >= key only the empty key
+		return &ScanType{FULL, nil}
+	}
+	return &ScanType{RANGE, [][]byte{nil, key}}
+}
+
 func (o *FilterOptimizer) optimizeLtLteExpr(e *BinaryOpExpr) *ScanType {
 	var (
 		field KVKeyword = ValueKW
@@ -260,7 +284,8 @@ func (o *FilterOptimizer) optimizeLtLteExpr(e *BinaryOpExpr) *ScanType {
 
 	switch left := e.Left.(type) {
 	case *StringExpr:
-		key = []byte(left.Data)
+		// 'literal' < key is key > 'literal': the literal is the start of the range
+		return o.optimizeLiteralFirstExpr(e, left, true)
 	case *FieldExpr:
 		field = left.Field
 	}
@@ -294,7 +319,9 @@ func (o *FilterOptimizer) optimizePrefixMatchExpr(e *BinaryOpExpr) *ScanType {
 
 	switch left := e.Left.(type) {
 	case *StringExpr:
-		key = []byte(left.Data)
+		// 'literal' ^= key asks whether key is a prefix of the literal,
+		// which does not pin the key to a prefix region
+		return &ScanType{FULL, nil}
 	case *FieldExpr:
 		field = left.Field
 	}
